@@ -84,7 +84,7 @@ var lprofiles = map[string]*lprofile{
 	"C10": {prop: "C10", qmax: 3000, quickCases: 1000, thorCases: 20000, raceCases: 400},
 	"C13": {prop: "C13", qmax: 2000, quickCases: 1000, thorCases: 20000, overLimit: true},
 	"C14": {prop: "C14", kinds: []string{"i8", "i16", "i32", "i64"}, qmax: 1500, quickCases: 1600, thorCases: 30000},
-	"C18": {prop: "C18", qmax: 0, quickCases: 1500, thorCases: 20000},
+	"C18": {prop: "C18", qmax: 0, quickCases: 1500, thorCases: 60000},
 }
 
 // exhTier selects the exhaustive universes: the scan check uses a lighter set
